@@ -81,7 +81,14 @@ def run(ctx):
         ctx.violation("infer-suite", e, found_input=False)
     ctx.obligation("correspondence (two-directional): real inferContracts == extracted model infer on %d functions (standard library, nilaway, corpora, generated programs; %d with a nil comparison, %d with phis, up to %d blocks; the real tool infers %d contracts)" % (
         len(ir["funcs"]), ir["with_branch"], ir["with_phi"], ir["maxblocks"], ir["inferred"]), not ir["mism"] and not ir["panics"] and not ir["nofuel"])
-    ctx.coverage.update({"inference_functions": len(ir["funcs"]), "inference_contracts": ir["inferred"]})
+    # translation validation for theorem C20_inferred_contract_true: the final state of the transcribed work list is a
+    # post-fixpoint (`stable`) on every function seen, the abstract SSA forms are well-formed, and every contract
+    # inferred for a plain function passed infer_checked (= the theorem's hypothesis)
+    ctx.obligation("validated inference: the final state of inferContracts is a post-fixpoint (stable) on all %d functions, all well-formed; %d are plain; of the %d contracts inferred %d are for plain functions and all %d of those satisfy the hypothesis of C20_inferred_contract_true" % (
+        len(ir["funcs"]), ir["plain"], ir["inferred"], ir["inferred_plain"], ir["inferred_validated"]),
+        not ir["unstable"] and not ir["illformed"] and not ir["unvalidated"])
+    ctx.coverage.update({"inference_functions": len(ir["funcs"]), "inference_contracts": ir["inferred"],
+                         "inference_plain_functions": ir["plain"], "inference_contracts_covered_by_soundness_theorem": ir["inferred_validated"]})
     imism = ir["mism"]
 
     rng = random.Random(ctx.seed * 32452843 + 20)
@@ -153,6 +160,10 @@ def run(ctx):
         for (f, m) in imism[:2]:
             ctx.violation("infer-correspondence", "model M10 (coq/model/Infer.v) and the real inferContracts disagree (the model says %s): theorems about the inference no longer speak about the code; no run returning nil for a non-nil argument was found among the probes\n%s" % (
                 {"I": "inferred", "N": "not inferred"}.get(m, m), IS.describe(f)), found_input=False)
+        for f in (ir["unstable"] + ir["unvalidated"])[:1]:
+            ctx.violation("infer-unstable", "the final state of the contract inference is not a post-fixpoint on this function (some table of a block, pushed over an edge, is missing from the successor): theorem C20_inferred_contract_true does not apply to what the inference returns; no run returning nil for a non-nil argument was found among the probes\n%s" % IS.describe(f), found_input=False)
+        for f in ir["illformed"][:1]:
+            ctx.violation("infer-illformed", "the abstract SSA form of this function is not well-formed (a nil comparison with equal successors, or the parameter defined by an instruction): the semantics of proofs/InferSound.v does not describe it\n%s" % IS.describe(f), found_input=False)
         for f in (ir["panics"] + ir["nofuel"])[:1]:
             ctx.violation("infer-run", "the real inference panicked / the model ran out of fuel on\n%s" % IS.describe(f), found_input=False)
         for (c, o, f) in bad["infer"][:3]:
@@ -162,7 +173,9 @@ def run(ctx):
     if not okp and not ctx.violations:
         ctx.violation("proof", "a proof obligation of props/C20.v no longer checks:\n" + common.coq_error_excerpt(log), found_input=False)
     ctx.write_evidence(assumptions=[
-        "the model's contract inference is an upper bound of any sound intraprocedural inference, not a transcription of functioncontracts/infer.go: the tie is one-directional (real => model) plus run-time probes",
+        "infer_sem (model/Contract.v) is an upper bound of any sound intraprocedural inference over MiniGo, tied one-directionally (real => model) plus run-time probes; model M10 (model/Infer.v) is a transcription of functioncontracts/infer.go over the abstract SSA form rendered by the hook VerifInferAll, tied two-directionally",
+        "C20_inferred_contract_true covers functions all of whose values are plain (no ChangeInterface / MakeInterface / Slice / SliceToArrayPointer / append(x) / append(x, s...)): for the others nilnessOf follows operands, and the theorem says nothing",
+        "the semantics of the abstract SSA form (proofs/InferSound.v: envok, edge_ok, enters) is nilaway's notion of nilness: stated, not derived from the Go specification",
         "contracts about the first declared parameter of a method (receiver + one parameter) are outside the modelled fragment; the generator does not produce such methods"])
 
 
